@@ -96,6 +96,19 @@ pub fn vertex_shapes(thorough: bool, o: (i32, i32), rng: &mut Rng) -> Vec<Value>
             v.push(json!({"k":"line","s":[ox + a % g, oy + a / g],"e":[ox + b % g, oy + b / g]}));
         }
     }
+    // longer lines: axis-aligned in all four directions with even and odd deltas around 32 / 64 (a draw() fast path
+    // for long horizontal / vertical lines is an obvious optimisation), and a few long sloped ones
+    for len in [31, 32, 33, 37, 38, 45, 63, 64, 65] {
+        if !thorough && len % 2 == 0 && len != 32 {
+            continue;
+        }
+        for (dx, dy) in [(1, 0), (-1, 0), (0, 1), (0, -1)] {
+            v.push(json!({"k":"line","s":[ox + 3, oy + 2],"e":[ox + 3 + dx * len, oy + 2 + dy * len]}));
+        }
+    }
+    for (dx, dy) in [(41, 13), (-41, 13), (13, -41), (-37, -37), (52, 1), (-1, 52)] {
+        v.push(json!({"k":"line","s":[ox + 1, oy - 1],"e":[ox + 1 + dx, oy - 1 + dy]}));
+    }
     let tg = 4;
     for n in 0..(tg * tg * tg * tg * tg * tg) {
         if !thorough && n % 5 != 0 {
